@@ -29,6 +29,15 @@ CLAIMS = {
     "C39": ("proof", "inventory of unchecked str conversions over MIR (calls + transmutes), call-graph closure of hexane's validating load path, who-may-construct for trusting decoders, and must-validate-before-trust dominance at every String-typed trusting-decoder site outside hexane",
             "Proves the validate-before-trust discipline that makes the single from_utf8_unchecked sound: it is the only unchecked conversion in the four crates; the validating loaders never reach RleValue::unpack and decode with try_unpack; trusting RleDecoders are constructed only by a reviewed set of hexane functions; and every String-typed streaming decoder outside hexane is over a literal empty slice or dominated by a Column::load of the same bytes whose error exits.",
             "Near-complete for the stated mechanism; not decided: value fidelity of decoded strings. The rule fired on the pinned tree (bundle message/key/mark-name columns decoded by the trusting decoder straight from wire bytes): repaired by fix: 796a9f3bc. Trusting decoders over wire bytes for non-string types are C15's subject.", "DESIGN.md §3 C39"),
+    "C32": ("proof", "provenance obligations over MIR of the three serde serializers: object argument of every ReadDoc call, size-hint operand, child-serializer object ids, exhaustiveness of the ObjType dispatch",
+            "Proves that every document read made while serializing (length, keys, get, text) targets the object being serialized, that the serialize_map/serialize_seq size hint is None or the length of that same object, that children are serialized under the id returned for them, and that every ObjType has an arm.",
+            "Decides structural clauses only (a serializer reading another object or announcing another object's length corrupts the export); faithfulness of values and ordering is runtime state. The rule fired on the pinned tree (nested maps announced the root's length): repaired by fix: 9d6da1bb0.", "DESIGN.md §3 C32"),
+    "C27": ("proof", "provenance obligations over MIR of update_list / update_map / update_value: index of deleting calls must depend on the target, deletion set fed only on the None arm of target.get, nested target handed to the matching reconciler",
+            "Proves three necessary conditions of update_object reaching its target: surplus list elements are deleted at positions derived from the target (not from a count alone), map keys are deleted only when the target lacks them and added from the target, and nested values recurse into the matching reconciler.",
+            "Thin: Myers diff, update_spans and batch construction are value-level and not decided. The rule fired on the pinned tree ([a,b,c] -> update_object([x,y]) gave [y,c]): repaired by fix: 3dcdfdc40.", "DESIGN.md §3 C27"),
+    "C13": ("proof", "must-pass-through on the CFG of both loaders: from each arm of the LoadedChanges match every Ok exit passes apply_changes* over that arm's payload (and the first chunk's changes); edge rule for on_partial_load",
+            "Proves that neither loader can return Ok while dropping a collection of completely parsed changes (first chunk, Complete(c), Partial{loaded}) and that an Ok after a failed chunk requires on_partial_load != Error.",
+            "Decides the no-drop clause; chunk-boundary arithmetic and panic-freedom are not decided. The rule fired on the pinned tree (OnPartialLoad::Ignore dropped the first chunk's changes and all chunks loaded before the failure): repaired by fix: be08eb1f0.", "DESIGN.md §3 C13"),
 }
 
 NA_PLANNED = "rule designed in DESIGN.md §3 but its checker is not built in this revision, so nothing is claimed yet"
